@@ -438,6 +438,10 @@ class Program:
             self._impl_index = idx
         return self._impl_index.get(strip_generics(trait_item_path), [])
 
+    @staticmethod
+    def _local_trait(name):
+        return bool(name) and name.startswith("incremental")
+
     def call_targets(self, t):
         """Local functions a call terminator may enter: resolved callee, or all local impls of a
         trait method when the call is dynamic/unresolved. Closure-typed generic args are added by
@@ -449,10 +453,11 @@ class Program:
             if F is not None:
                 out.append(F)
                 # a resolved trait *declaration* (virtual call) still needs expansion
-                if t.j.get("resolved_kind") == "Virtual":
+                if t.j.get("resolved_kind") == "Virtual" and self._local_trait(t.j.get("callee_trait")):
                     out.extend(x for x in self.impls_of_trait_item(r) if x not in out)
                 return out
-            if t.j.get("resolved_kind") == "Virtual" or t.j.get("callee_trait"):
+            if (t.j.get("resolved_kind") == "Virtual" or t.j.get("callee_trait")) and \
+                    self._local_trait(t.j.get("callee_trait")):
                 out.extend(self.impls_of_trait_item(r))
                 if out:
                     return out
@@ -461,7 +466,9 @@ class Program:
             F = self.fn(c)
             if F is not None:
                 out.append(F)
-            if t.j.get("callee_trait"):
+            if self._local_trait(t.j.get("callee_trait")):
+                # dyn / generic call of a trait of the analysed crates: every local impl may run.
+                # (unresolved calls of std traits - Iterator, Debug, Clone.. - are not expanded)
                 out.extend(x for x in self.impls_of_trait_item(c) if x not in out)
         return out
 
